@@ -63,6 +63,8 @@ type LimbDom struct {
 	nextWide  int
 	sums      map[[2]int]*Wide
 	prog      *load.Program
+	// Prims: in-repo functions given a summary instead of being interpreted
+	Prims map[string]func(in *Interp, site ssa.Instruction, args []Val) []Val
 }
 
 func NewLimbDom(p *load.Program, trackPoly bool) *LimbDom {
@@ -491,6 +493,11 @@ func (d *LimbDom) Add64(in *Interp, x, y, c Val, pos ssa.Instruction) (sum, carr
 
 func (d *LimbDom) Call(in *Interp, site ssa.Instruction, fn *ssa.Function, args []Val) ([]Val, bool) {
 	name := fn.String()
+	if d.Prims != nil && in.P.InRepo(fn) {
+		if h, ok := d.Prims[load.ShortName(fn)]; ok {
+			return h(in, site, args), true
+		}
+	}
 	switch name {
 	case "math/bits.Mul64":
 		if _, ok := args[0].(Int); ok {
